@@ -178,8 +178,7 @@ pub open spec fn loud_post(b: Base, q: ReqView, rh0: binary::ResponseHeader, s0:
         Base::Version => {
             &&& s1 == s0 && full is Version
             &&& resp_header(full) == (binary::ResponseHeader { body_length: MEMCRS_VERSION.spec_bytes().len() as u32, ..rh0 })
-            // NOT covered: that the text is MEMCRS_VERSION itself (String::from(&str) has no Verus specification);
-            // the announced length is the length of MEMCRS_VERSION
+            &&& string_bytes(full->Version_0.version) =~= MEMCRS_VERSION.spec_bytes()
         },
         // C13: refused with 'too large' (0x03); stores or changes nothing
         Base::TooLarge => s1 == s0 && err_resp(full, rh0, CacheError::ValueTooLarge),
@@ -237,7 +236,7 @@ pub proof fn lemma_response_wellformed(b: Base, q: ReqView, h: binary::RequestHe
         resp_header(full).magic == 0x81 && resp_header(full).opcode == h.opcode && resp_header(full).opaque == h.opaque && resp_header(full).data_type == 0,
         status_in_table(resp_header(full).status),
         full is Error <==> resp_header(full).status != 0,
-        !(b is Version) ==> payload_bytes(full).len() == resp_header(full).body_length,
+        payload_bytes(full).len() == resp_header(full).body_length,
         (b is Get || b is GetKey) && !(full is Error) ==> resp_header(full).extras_length == 4 && resp_header(full).key_length == (if b is GetKey { q.key.len() } else { 0 }),
         (b is Incr || b is Decr) && !(full is Error) ==> resp_header(full).body_length == 8,
 {
@@ -249,6 +248,7 @@ pub proof fn lemma_response_wellformed(b: Base, q: ReqView, h: binary::RequestHe
     }
     assert(enc32(0).len() == 4);
     assert(enc64(0).len() == 8);
+    if b is Version { axiom_version_short(); }
 }
 
 // always true; trigger for existentials over an optional response (see is_resp)
